@@ -16,9 +16,9 @@ import (
 // globalQueueInitialCap are overridden to 2 so spill, growth and stealHalf-into-full are reached.
 
 type c05Item struct {
-	id      int
-	repush  int // how many times runTurn re-schedules itself through the worker (pushLocal path)
-	h       *c05Harness
+	id     int
+	repush int // how many times runTurn re-schedules itself through the worker (pushLocal path)
+	h      *c05Harness
 }
 
 type c05Harness struct {
@@ -36,12 +36,12 @@ func (it *c05Item) runTurn(w *worker) {
 }
 
 type c05Scenario struct {
-	name     string
-	workers  int
-	pushers  [][]int // per pusher: item ids pushed in order
-	repush   map[int]int
-	closer   bool
-	bound    int
+	name    string
+	workers int
+	pushers [][]int // per pusher: item ids pushed in order
+	repush  map[int]int
+	closer  bool
+	bound   int
 }
 
 func c05Queued(rq *readyQueue) []int {
